@@ -150,6 +150,21 @@ REVERTS = [
     ("safe-sequence computation must not recurse once per node of a path", ["C09"]),
     ("flow decomposition models must accept numpy-typed flow values", ["C19"]),
     ("round the weight bound up instead of truncating it", ["C08", "C07"]),
+    ("kMinPathError with all path-length factors below 1", ["C08"]),
+    ("a constraint-list entry that is not a list", ["C19"]),
+    ("an edge-list constraint whose entry is not a tuple", ["C19"]),
+    ("kMinPathError slack bound with a path-length factor 0", ["C08"]),
+    ("MinErrorFlow must reject non-string nodes also when the graph has cycles", ["C19"]),
+    ("attribute values given as numpy scalars", ["C07", "C09", "C05"]),
+    ("NaN and infinite weights must be rejected", ["C19"]),
+    ("a coverage fraction outside (0, 1] must be rejected also when the caller passes no constraints", ["C19"]),
+    ("float solution values (weights, slacks, corrected flow values) are clipped", ["C16", "C01"]),
+    ("the float flow-conservation check allows round-off of the sums only", ["C19"]),
+    ("read_graphs must reject non-blank lines that precede the first header", ["C20"]),
+    ("optimization_options['external_safe_paths'] list was aliased", ["C18"]),
+    ("a failed re-solve of a search over k", ["C13"]),
+    ("differs from the previous HiGHS run of the process", ["C18"]),
+    ("MinFlowDecompCycles(use_min_gen_set_lowerbound) on float flows below 1", ["C05"]),
 ]
 
 
